@@ -5,6 +5,7 @@
 From Coq Require Import List NArith Bool.
 From MV Require Import Model.Relay Gen.RelaySrc Proofs.RelayInv Proofs.Relay Model.UrlBuild Proofs.UrlBuild.
 From MV Require Model.RelayHttp Gen.RelayHttpSrc Proofs.RelayHttp.
+From MV Require Model.RelayDeadline Proofs.RelayDeadline.
 Import ListNotations.
 Open Scope N_scope.
 
@@ -15,8 +16,9 @@ Open Scope N_scope.
    and close the other side / close it without flush), as generated from the two switch statements, IS the table
    the model's `flushes` was verified against (comparison by conversion; nothing in Proofs depends on Gen). *)
 Theorem c01_relay_source_is_verified_source :
-  RelaySrc_translator_ok = true /\ doread_eof_delivers = true /\ up_reaction = reaction_table /\ down_reaction = reaction_table.
-Proof. exact (conj eq_refl (conj eq_refl (conj eq_refl eq_refl))). Qed.
+  RelaySrc_translator_ok = true /\ doread_eof_delivers = true /\ up_reaction = reaction_table /\ down_reaction = reaction_table /\
+  write_deadline_fresh = true.
+Proof. exact (conj eq_refl (conj eq_refl (conj eq_refl (conj eq_refl eq_refl)))). Qed.
 Theorem c01_relay_reaction_table : forall ev, reaction_table ev = Some (flushes ev).
 Proof. exact reaction_table_is_flushes. Qed.
 
@@ -236,3 +238,39 @@ Theorem c01_http1_old_shape_refuted :
   ~ (forall mp q, q_body (fwd_req hsw_old mp q) = q_body q).
 Proof. exact (conj old_request_content_type_invented (conj old_response_content_type_invented old_body_statement_refuted)). Qed.
 End Http1.
+
+(* ======================================================================================================== *)
+(* C01 (TCP relay): nothing is cut off by a write time-out the receiver did not cause.  A raw write that does not
+   complete before the deadline in force fails, the connection is closed with OnWriteTimeout and the peer sees a clean
+   end after a truncated stream - so which deadline is in force during a write matters.  The source arms
+   now + DefaultConnWriteTimeout in front of EVERY raw write (write_deadline_fresh above, read from setWriteDeadline and
+   the call sites of doWrite on every run).  Model: Model/RelayDeadline.v. *)
+Module WriteDeadline.
+Import MV.Model.RelayDeadline MV.Proofs.RelayDeadline ZArith.
+Open Scope Z_scope.
+
+(* For every history of writes of one connection (any gaps, any stalls of the receiver): the deadline in force during a
+   write is its own start + W; a write times out ONLY IF the receiver kept THAT write blocked for at least W; and if
+   every stall is shorter than W every write completes. *)
+Theorem c01_relay_write_deadline : forall W, 0 < W ->
+  (forall s l w res start d, In (w, res, start, d) (writes true W s l) -> d = start + W) /\
+  (forall s l w dl start d, In (w, TimedOut dl, start, d) (writes true W s l) -> W <= stall w) /\
+  (forall l, Forall (fun w => stall w < W) l -> forall s, length (writes true W s l) = length l /\
+     Forall (fun x => match x with (_, Done _, _, _) => True | _ => False end) (writes true W s l)).
+Proof.
+  exact (fun W HW => conj (fun s l => fresh_deadline W s l)
+                   (conj (fun s l => fresh_timeout_needs_stall W s l HW) (fun l => fresh_all_done W l HW))).
+Qed.
+Print Assumptions c01_relay_write_deadline.
+
+(* The variant that keeps the deadline armed by an earlier write while it is still ahead does NOT have this property:
+   a small write at 0, then at 0.6 W a write the receiver blocks for 0.65 W - it times out at W. *)
+Theorem c01_relay_cached_deadline_refuted :
+  ~ (forall W s l, 0 < W -> forall w dl start d, In (w, TimedOut dl, start, d) (writes false W s l) -> W <= stall w).
+Proof. exact cached_refuted. Qed.
+
+Example c01_relay_write_deadline_example :
+  map (fun x => snd (fst (fst x))) (writes true 1000 d0 [mkWr 0 0; mkWr 600 650]) = [Done 0; Done 1250] /\
+  map (fun x => snd (fst (fst x))) (writes false 1000 d0 [mkWr 0 0; mkWr 600 650]) = [Done 0; TimedOut 1000].
+Proof. vm_compute. split; reflexivity. Qed.
+End WriteDeadline.
